@@ -94,6 +94,10 @@ pub struct CCfg {
     pub alphabet: u32,
     pub fault: Option<Fault>,
     pub keep_root: bool,
+    /// the connection has been open (and idle) for this long before the first call is made;
+    /// the callers' deadlines are still given relative to the start of the run
+    #[serde(default)]
+    pub start_age_ms: i64,
 }
 
 #[derive(Clone, Debug, PartialEq, Eq, Hash)]
@@ -893,6 +897,10 @@ pub fn execute(cfg: &CCfg, prefix: &[u16], suppress_stray: Option<u32>) -> Exec 
             }
         })));
         w.fingerprint();
+        if cfg.start_age_ms > 0 {
+            tokio::time::advance(Duration::from_millis(cfg.start_age_ms as u64)).await;
+            w.log.push(Rec::N("time", vec![w.log.now_ns()]));
+        }
         // main phase
         loop {
             let more = w.step(false);
